@@ -680,6 +680,7 @@ Section Gov.
   (** equality of the observable parts; accounts, nodes: the universes to compare over *)
   Definition obs_eqb (accts nodes : list N) (a b : state) : bool :=
     Nat.eqb (List.length (s_props a)) (List.length (s_props b)) &&
+    list_eqb Nat.eqb (s_proposed a) (s_proposed b) && list_eqb Nat.eqb (s_paused a) (s_paused b) &&
     forallb (fun pq : proposal * proposal => obs_prop_eqb (fst pq) (snd pq)) (combine (s_props a) (s_props b)) &&
     forallb (fun x => role_code_eqb (role_of a x) (role_of b x)) accts &&
     forallb (fun x => option_eqb seqb (node_of a x) (node_of b x)) nodes &&
@@ -730,7 +731,11 @@ Section Gov.
       8 governed object changed without a proposal on it being created or ended
       9 header of an existing proposal changed / electorate of a new one is not the available admins
       10 electors counted as available do not cover the voters + available non-voters
-      11 more electors counted as available than the electorate has *)
+      11 more electors counted as available than the electorate has
+      12 the status indexes (GetProposalsByStatus "proposed" / "pause", which feed
+         GetNotClosedProposals) do not list exactly the proposals of that status, once each
+      13 the stored record of a finished proposal was rewritten (AvailableElectorateNum /
+         ThresholdApproveNum of an approved or rejected proposal changed) *)
   Definition olds (a b : state) := combine (s_props a) (s_props b).
   Definition news (a b : state) := skipn (List.length (s_props a)) (s_props b).
 
@@ -771,6 +776,18 @@ Section Gov.
                (p_avail (snd pq) <=? h_total (p_hdr (snd pq))) || negb (p_avail (fst pq) <=? h_total (p_hdr (fst pq)))) (olds a b) &&
     forallb (fun q : proposal => p_avail q <=? h_total (p_hdr q)) (news a b).
 
+  Fixpoint nodup_nat (l : list nat) : bool :=
+    match l with [] => true | x :: t => negb (existsb (Nat.eqb x) t) && nodup_nat t end.
+  Definition index_ok (b : state) (l : list nat) (st : N) : bool :=
+    nodup_nat l &&
+    forallb (fun i => match get_prop b i with Some p => p_status p =? st | None => false end) l &&
+    forallb (fun ip : nat * proposal => negb (p_status (snd ip) =? st) || existsb (Nat.eqb (fst ip)) l)
+            (combine (seq 0 (List.length (s_props b))) (s_props b)).
+  Definition cl_index (b : state) : bool := index_ok b (s_proposed b) ST_PROPOSED && index_ok b (s_paused b) ST_PAUSED.
+  Definition cl_record (a b : state) : bool :=
+    forallb (fun pq : proposal * proposal =>
+               is_open (fst pq) || ((p_avail (fst pq) =? p_avail (snd pq)) && (p_thresh (fst pq) =? p_thresh (snd pq)))) (olds a b).
+
   Definition step_ok (accts nodes : list N) (a : state) (o : op) (rc : N) (b : state) : N :=
     if negb (cl_final a b) then 1
     else if negb (cl_tally b) then 2
@@ -783,6 +800,8 @@ Section Gov.
     else if negb (cl_header a b) then 9
     else if negb (cl_avail a b) then 10
     else if negb (cl_bound a b) then 11
+    else if negb (cl_index b) then 12
+    else if negb (cl_record a b) then 13
     else 0.
 
   (** trace = list of (op, rc, state after); returns 0 or step * 16 + clause *)
